@@ -3,7 +3,7 @@ import re
 
 from . import flow
 from .flow import chain, guarded, present, absent
-from .evalx import evalx, Unknown
+from .evalx import evalx, eval_prefix, Unknown
 from .schemes import call
 
 X = "xenium::"
@@ -333,6 +333,50 @@ def nikolaev(ctx):
                 ok = ok and o and n > 0
             ctx.check(ok, rid, SCQ + "enqueue<Finalizable>#fails-when-finalized", "finalizable enqueue returns false iff the ticket carries the finalized bit",
                       "a finalizable enqueue does not fail on a finalized queue", fn.where(), fn=fn)
+    # the dequeue threshold is re-armed only by an enqueue that has published its entry
+    for fn in flow._shapes(ctx, SCQ + "enqueue"):
+        ths = flow.find(fn, {"k": "call", "field": "nikolaev_scq::_threshold", "op": "store"})
+        ecas = flow.find(fn, cas_on("nikolaev_scq::_data[]", "entry CAS")) or [e for e in flow.find(fn, {"k": "call"}) if fn.atomic(e) and fn.atomic(e)["kind"] == "cas" and "_data" in fn.atomic(e)["field"]]
+        nonempty_inst = all(re.search(r"enqueue<true", i) for i in fn.insts)
+        if not ths:
+            if not nonempty_inst:
+                ctx.bad(rid, SCQ + "enqueue#threshold-rearm", "enqueue<Nonempty=false> never re-arms the dequeue threshold: consumers keep reporting empty", fn.where(), fn=fn)
+            continue
+        for t_ in ths:
+            ok, path, n = flow.only_via(fn, t_, lambda f_, nid: nid in ecas, True)
+            ctx.check(ok and n > 0, rid, SCQ + "enqueue#threshold-rearm|published", "the threshold is re-armed only after the entry CAS succeeded",
+                      "the dequeue threshold is re-armed before the entry is published: consumers that poll meanwhile use the threshold up again (3n-1 failing dequeues), "
+                      "the enqueue then publishes without re-arming it, and every later dequeue reports empty although the element is stored", fn.where(t_), fn=fn)
+    # the threshold bound of SCQ assumes a bounded number of concurrent dequeuers
+    rid_tb = "SCQ.threshold-thread-bound"
+    ctx.rule(rid_tb, "SCQ re-arms its dequeue threshold to T(c) after an enqueue; a dequeuer gives up (reports empty) once the threshold is negative, and every dequeuer that "
+                     "visited a slot in vain decrements it once - also dequeuers that were already in flight when the threshold was re-armed.  With a ring of R(c) slots "
+                     "the element is found after at most R(c) vain visits of ONE dequeuer, so T(c) tolerates T(c) - R(c) + 1 concurrent dequeuers (the k <= n assumption of "
+                     "the SCQ paper).  That admissible number, computed from the constants in the source, must reach the number of threads the property quantifies over (4) "
+                     "for every capacity the constructor accepts, down to the minimum capacity 1")
+    for fn in flow._shapes(ctx, SCQ + "enqueue"):
+        ths = flow.find(fn, {"k": "call", "field": "nikolaev_scq::_threshold", "op": "store"})
+        if not ths or len(fn.params) < 2:
+            continue
+        cap_name = fn.params[1]["name"]
+        worst = None
+        try:
+            for c_ in (1, 2, 4, 8):
+                env_, _stop = eval_prefix(fn, {cap_name: c_, fn.params[0]["name"]: 0})
+                env_.setdefault(cap_name, c_)
+                t_val = evalx(fn, fn.kids(ths[0])[1], env_)
+                ring = env_.get("n", 2 * c_)
+                kmax = t_val - ring + 1
+                if kmax < 4 and worst is None:
+                    worst = (c_, t_val, ring, kmax)
+        except Unknown as ex:
+            ctx.broken.append("nikolaev_scq::enqueue: threshold value not evaluable (%s)" % ex)
+            continue
+        ctx.check(worst is None, rid_tb, SCQ[:-2] + "#capacity<threads", "the re-armed threshold tolerates 4 concurrent dequeuers for every capacity",
+                  "with capacity %s the threshold is re-armed to %s for a ring of %s slots: it tolerates only %s concurrent dequeuer(s).  With more polling consumers than that the "
+                  "in-flight dequeuers' late decrements drive the threshold below zero AFTER an enqueue re-armed it: the element stays stored, every later dequeue reports "
+                  "empty (nikolaev_bounded_queue accepts any capacity >= 1 and documents a thread bound for lock-freedom only)" % (worst or (0, 0, 0, 0)), fn.where(ths[0]), fn=fn)
+        break
     rid3 = "SCQ.settle-slot"
     ctx.rule(rid3, "SCQ dequeue: after taking a head ticket the dequeuer leaves its slot only after settling it: consuming the value, stamping the slot "
                    "with its cycle by CAS, finding it already stamped (entry == entry_new), or finding it in a cycle that is not older than its own; only then it "
@@ -565,6 +609,30 @@ def vyukov_bounded(ctx):
                               "strong operation reports full/empty only after re-reading its own and the opposite position",
                               "the strong operation reports %s without re-reading %s (it may fail although the queue is not %s)" % (
                                   "full" if f == "do_try_push" else "empty", other, "full" if f == "do_try_push" else "empty"), fn.where(r), fn=fn)
+    # the public variants dispatch to the algorithm their name promises, whatever the default policy is
+    n_disp = 0
+    strong_under_weak_default = 0
+    for fn in ctx.facts.fns:
+        if not fn.pat.startswith(Q) or fn.inlined_helper:
+            continue
+        leaf = fn.pat.split("::")[-1]
+        if leaf not in ("try_push", "try_push_strong", "try_push_weak", "try_pop", "try_pop_strong", "try_pop_weak", "pop", "pop_strong", "pop_weak", "emplace"):
+            continue
+        weak_default = any("default_to_weak<true>" in i for i in fn.insts)
+        want = 0 if leaf.endswith("_strong") else 1 if leaf.endswith("_weak") else (1 if weak_default else 0)
+        for b, i, e, n_ in fn.events():
+            if n_["k"] == "call" and n_.get("callee", "").split("::")[-1] in ("do_try_push", "do_try_pop") and n_.get("targs"):
+                n_disp += 1
+                if leaf.endswith("_strong") and weak_default:
+                    strong_under_weak_default += 1
+                got = n_["targs"][0]
+                ctx.check(got == want, rid, fn.pat + "#dispatch[%s]" % ("weak-default" if weak_default else "strong-default"),
+                          "%s runs the %s algorithm" % (leaf, "weak" if want else "strong"),
+                          "%s forwards to %s<Weak=%s> in a queue configured with default_to_weak<%s>: the operation documented as %s runs the %s algorithm (a strong operation "
+                          "then fails although the queue is not full/empty, a weak one blocks)" % (leaf, n_["callee"].split("::")[-1], bool(got), "true" if weak_default else "false",
+                                                                                                  "strong" if want == 0 else "weak", "weak" if got else "strong"), fn.where(e), fn=fn)
+    if n_disp < 6 or strong_under_weak_default < 2:
+        ctx.broken.append("vyukov_bounded_queue dispatch: %d forwarding calls, %d strong operations under default_to_weak<true> instantiated" % (n_disp, strong_under_weak_default))
     # the destructor destroys exactly the cells of the positions [dequeue_pos, enqueue_pos) - finite execution for a ring of 4 cells, every
     # dequeue position 0..9 and every fill level 0..4 (in particular the completely full ring, where both ends denote the same cell)
     from .evalx import run_until
